@@ -47,7 +47,8 @@ INC_NAMES = ("m_inc.c", "m_inc2.c")
 
 
 def py_text(K, D, S=1, inc_names=INC_NAMES):
-    return ('r"""cache probe"""\nfrom numpy import inf\nname = "rtm_cache_probe"\ntitle = "probe"\ndescription = "probe"\n'
+    return ('r"""cache probe"""\nimport os as _os\nif _os.environ.get("RTM17_INTERRUPT") == "1":\n    raise KeyboardInterrupt()\n'
+            'from numpy import inf\nname = "rtm_cache_probe"\ntitle = "probe"\ndescription = "probe"\n'
             'category = "shape:sphere"\nparameters = [["p_default", "", %d, [-inf, inf], "", "default carries a version"]]\n'
             'source = ["lib/gauss76.c", "%s"]\nIq = """\n    if (q < 0.15) return %d.0;\n    if (q < 0.25) return inc_version();\n'
             '    if (q < 0.35) return RTM_TEMPLATE_VERSION;\n    if (q < 0.45) return FLOAT_SIZE;\n    if (q < 0.55) return p_default;\n'
@@ -127,6 +128,14 @@ class World:
         keys = {"py": ("K", "D", "S"), "inc": ("V",), "inc2": ("V2",), "tpl": ("T",)}[which]
         self.history[which].append({k: self.state[k] for k in keys})
 
+    def make_twin(self):
+        """A second copy of the plugin directory as it is now (same file names, kept as it is from now on): another
+        file with the same name as the plugin, used beside it in one model expression."""
+        if getattr(self, "twin_state", None) is None:
+            shutil.copytree(self.plug, os.path.join(self.root, "twin"), copy_function=shutil.copy2)
+            self.twin_state = dict(self.state)
+        return self.twin_state
+
     def env(self):
         e = dict(os.environ)
         e.update({"SAS_DLL_PATH": self.cache, "PYTHONPATH": self.pkg, "SAS_OPENCL": "none", "TMPDIR": self.root,
@@ -141,8 +150,9 @@ class World:
                                        stdin=subprocess.PIPE, stdout=subprocess.PIPE, stderr=subprocess.PIPE, text=True,
                                        cwd=self.root)
 
-    def ask(self, proc, dtype, via="core", ngauss=None, noflag=False):
-        proc.stdin.write(json.dumps({"op": "eval", "dtype": dtype, "via": via, "ngauss": ngauss, "noflag": noflag}) + "\n")
+    def ask(self, proc, dtype, via="core", ngauss=None, noflag=False, interrupt=False):
+        proc.stdin.write(json.dumps({"op": "eval", "dtype": dtype, "via": via, "ngauss": ngauss, "noflag": noflag,
+                                     "interrupt": interrupt}) + "\n")
         proc.stdin.flush()
         while True:
             line = proc.stdout.readline()
@@ -151,10 +161,10 @@ class World:
             if line.startswith("RTM17 "):
                 return json.loads(line[6:])
 
-    def eval_same(self, dtype, via="core", ngauss=None, noflag=False):
+    def eval_same(self, dtype, via="core", ngauss=None, noflag=False, interrupt=False):
         if self.server is None or self.server.poll() is not None:
             self.start_server()
-        return self.ask(self.server, dtype, via, ngauss, noflag)
+        return self.ask(self.server, dtype, via, ngauss, noflag, interrupt)
 
     def eval_fresh(self, dtype, via="core", ngauss=None, noflag=False):
         p = subprocess.Popen([core.PY, os.path.join(HERE, "_c17_proc.py"), self.files["py"]], env=self.env(),
@@ -203,6 +213,11 @@ def gen_history(rng, h):
     ops += [["eval_size", "same"], ["eval", "same"], ["eval_size", "same"], ["edit_py_const", None], ["eval", "same"],
             ["edit_source_list", None], ["eval", "same"], ["edit_inc", None], ["eval", "same"], ["edit_source_list", None],
             ["eval", "same"], ["edit_py_const", None], ["eval", "same"], ["edit_inc", None], ["eval", "same"], ["eval", "fresh"]]
+    # a reload that the user interrupts (Ctrl-C while the edited definition file is being executed), then further edits
+    if h % 2 == 1:
+        ops += [["eval", "same"], ["edit_inc", None], ["interrupted_load", "same"], ["eval", "same"], ["edit_inc", None],
+                ["eval", "same"], ["edit_py_const", None], ["interrupted_load", "same"], ["edit_inc", None], ["eval", "same"],
+                ["eval", "same"]]
     # the same source state asked for in single precision with the single-precision switch off and on, in both orders
     if h % 3 == 0:
         ops += [["dtype", "single"], ["eval_noflag", "fresh"], ["eval", "fresh"], ["edit_py_const", None], ["eval", "fresh"],
@@ -280,12 +295,20 @@ def run_case(case, rec):
                     reverts += 1
                     last_edit = "revert"
                 op = "revert"
+            if op == "interrupted_load":
+                via_i = ["sasview", "core", "nested"][(step + case["h"]) % 3]
+                r_i = w.eval_same(dtype, via_i, None, False, interrupt=True)
+                rec.bucket("op:interrupted_load", "interrupted:" + ("yes" if r_i.get("interrupted") else "no-reload-needed"))
+                continue
             if op not in ("eval", "eval_size", "eval_noflag"):
                 rec.bucket("op:" + op)
                 continue
             ngauss = None
             via = "sasview" if (step + case["h"]) % 3 == 0 else "composite" if (step + case["h"]) % 7 == 1 else \
                 "nested" if (step + case["h"]) % 7 in (2, 5) else "modelpath" if (step + case["h"]) % 7 == 4 else "core"
+            if via == "core" and (step + case["h"]) % 7 == 6 and not w.broken:
+                via = "twin"
+                w.make_twin()
             if op == "eval_size":
                 ngauss, via = [20, 150][step % 2], "core"
                 rec.bucket("op:load_with_other_integration_size")
@@ -304,7 +327,7 @@ def run_case(case, rec):
                 rec.bucket("default_only_edit_then_same_process")
             s = w.state
             expected = [float(s["K"]), float(s["V"] if s["S"] == 1 else s["V2"]), float(s["T"]),
-                        (8.0 if noflag else FSIZE[dtype_used]) if via in ("core", "composite", "nested", "modelpath") else 8.0,
+                        (8.0 if noflag else FSIZE[dtype_used]) if via in ("core", "composite", "nested", "modelpath", "twin") else 8.0,
                         float(s["D"]), float(ngauss or 76)]
             ctx = {"step": step, "history": ops[:step + 1][-10:], "dtype": dtype, "process": arg,
                    "expected_versions": dict(zip(["py_const", "include", "template", "float_size", "py_default", "gauss_n"], expected))}
@@ -328,6 +351,15 @@ def run_case(case, rec):
             rec.check("evaluates_current_sources", ok,
                       None if ok else dict(ctx, loader=via, decoded=dict(zip(["py_const", "include", "template", "float_size", "py_default", "gauss_n"], got))),
                       key=key)
+            if via == "twin":
+                ts = w.twin_state
+                exp_t = [float(ts["K"]), float(ts["V"] if ts["S"] == 1 else ts["V2"]), float(s["T"]), FSIZE[dtype_used], float(ts["D"]), 76.0]
+                got_t = r.get("values_twin")
+                rec.check("evaluates_current_sources", got_t == exp_t,
+                          None if got_t == exp_t else dict(ctx, loader="a copy of the plugin under the same file name in another "
+                                                           "directory, as the second term of plugin+copy", expected_copy_versions=exp_t,
+                                                           decoded_copy=got_t), key="C17/same-file-name-in-two-directories")
+                rec.bucket("twin:differs" if exp_t != expected else "twin:identical")
             if r.get("package") and not r["package"].startswith(w.pkg):
                 rec.inconclusive("participant imported sasmodels from %s" % r["package"])
             for sha, size, path in r["make_dll_log"]:
